@@ -59,6 +59,7 @@ extern "C" {
     fn Tok_call_twice(this: &Tok, f: DiplomatCallback<u32>, g: DiplomatCallback<u32>) -> u32;
     fn Tok_ignore(this: &Tok, f: DiplomatCallback<u32>) -> u32;
     fn Tok_try_call(this: &Tok, ok: bool, f: DiplomatCallback<u32>) -> DiplomatResult<u32, Box<ErrTok>>;
+    fn Tok_greet(this: &Tok, s: diplomat_runtime::DiplomatUtf8StrSlice, f: DiplomatCallback<u32>) -> u32;
     fn Tok_hold(this: &mut Tok, f: DiplomatCallback<u32>);
     fn Tok_call_held(this: &Tok, x: u32) -> u32;
     fn Tok_unhold(this: &mut Tok);
@@ -229,6 +230,7 @@ pub enum Op {
     CallTwice { h: usize, d1: bool, d2: bool },
     Ignore { h: usize, dtor: bool },
     TryCall { h: usize, d: usize, ok: bool, dtor: bool },
+    Greet { h: usize, n: usize, dtor: bool },
     Hold { h: usize, dtor: bool },
     CallHeld { h: usize },
     Unhold { h: usize },
@@ -278,6 +280,7 @@ pub fn op_text(op: &Op) -> String {
         CallTwice { h, d1, d2 } => format!("call_twice {} {} {}", h, b(*d1, "dtor", "nodtor"), b(*d2, "dtor", "nodtor")),
         Ignore { h, dtor } => format!("ignore {} {}", h, b(*dtor, "dtor", "nodtor")),
         TryCall { h, d, ok, dtor } => format!("try_call {} {} {} {}", h, d, b(*ok, "ok", "err"), b(*dtor, "dtor", "nodtor")),
+        Greet { h, n, dtor } => format!("greet {} {} {}", h, n, b(*dtor, "dtor", "nodtor")),
         Hold { h, dtor } => format!("hold {} {}", h, b(*dtor, "dtor", "nodtor")),
         CallHeld { h } => format!("call_held {}", h),
         Unhold { h } => format!("unhold {}", h),
@@ -326,6 +329,7 @@ fn parse_op(t: &[&str]) -> Result<Op, String> {
         "call_twice" => CallTwice { h: hs(1)?, d1: flag(2, "dtor"), d2: flag(3, "dtor") },
         "ignore" => Ignore { h: hs(1)?, dtor: flag(2, "dtor") },
         "try_call" => TryCall { h: hs(1)?, d: hs(2)?, ok: flag(3, "ok"), dtor: flag(4, "dtor") },
+        "greet" => Greet { h: hs(1)?, n: num(2)?, dtor: flag(3, "dtor") },
         "hold" => Hold { h: hs(1)?, dtor: flag(2, "dtor") },
         "call_held" => CallHeld { h: hs(1)? },
         "unhold" => Unhold { h: hs(1)? },
@@ -674,7 +678,7 @@ impl<'t> Exec<'t> {
                 let strs: Vec<String> = (0..*k).map(|i| "x".repeat(i)).collect();
                 let views: Vec<DiplomatStrSlice> = strs.iter().map(|s| s.as_bytes().into()).collect();
                 let got = unsafe { Tok_take_strs(t, views.as_slice().into()) };
-                let want: u32 = (0..*k).map(|i| i as u32 + 1).sum();
+                let want: u32 = (0..*k).map(|i| i as u32 + 1 + i as u32 * b'x' as u32).sum();
                 if got != want {
                     return Err(self.v("O5-value-integrity", "take_strs saw wrong strings".into()));
                 }
@@ -767,6 +771,20 @@ impl<'t> Exec<'t> {
                     }
                     _ => return Err(self.v("O5-value-integrity", "try_call returned the wrong arm".into())),
                 }
+            }
+            Greet { h, n, dtor } => {
+                let t = match self.tok_ref(*h) {
+                    Some(t) => t,
+                    None => return Ok(false),
+                };
+                let text = "é".repeat(*n);
+                let (cb, data, cbid) = make_cb(*dtor);
+                self.next += 1;
+                let got = unsafe { Tok_greet(t, text.as_str().into(), cb) };
+                if got != (2 * *n as u32).wrapping_add(cbid) {
+                    return Err(self.v("O5-value-integrity", "greet result wrong".into()));
+                }
+                self.after_transient_cb(data, cbid, *dtor, Some(1))?;
             }
             Hold { h, dtor } => {
                 if self.tok(*h).is_none() || self.has_dependents(*h) {
@@ -1018,6 +1036,7 @@ fn op_kind(op: &Op) -> u32 {
         CallTwice { .. } => 30,
         Ignore { dtor, .. } => 31 + *dtor as u32,
         TryCall { ok, dtor, .. } => 33 + *ok as u32 * 2 + *dtor as u32,
+        Greet { dtor, .. } => 56 + *dtor as u32,
         Hold { dtor, .. } => 37 + *dtor as u32,
         CallHeld { .. } => 39,
         Unhold { .. } => 40,
@@ -1246,7 +1265,8 @@ pub fn gen_trace(seed: u64, run: u64, c12: bool) -> Trace {
                     _ => Op::Fill { h, n },
                 }
             }
-            4 => match rng.below(9) {
+            4 => match rng.below(10) {
+                9 => Op::Greet { h, n: rng.below(4) as usize, dtor },
                 0 | 1 => Op::Call { h, dtor },
                 2 => Op::CallTwice { h, d1: dtor, d2: rng.below(16) >= nodtor_rate },
                 3 => Op::Ignore { h, dtor },
